@@ -275,7 +275,20 @@ func c04ScriptedUpload(e *Env) {
 			case 4: // a middle block with a foreign token (never block 0 or the last one: those would start / complete a transfer of their own)
 				if num > 0 && num < n-1 {
 					e.Fault("block.foreignToken")
-					send(block(bi, num, []byte{0x7b, 0x7b}), fmt.Sprintf("block %d of body %d under a foreign token", num, bi))
+					// the foreign token is unrelated, or differs from the transfer's token only in length (a zero byte
+					// more or less); the block carries the other body's data, so merging it would show
+					ft := [][]byte{{0x7b, 0x7b}, append(append([]byte(nil), tok...), 0x00), append([]byte{0x00}, tok...), tok[:len(tok)-1]}[t.Choose(4)]
+					ob := 1 - bi
+					fn := num
+					if fn >= nb(ob)-1 {
+						fn = nb(ob) - 2
+					}
+					if fn > 0 {
+						if len(ft) != 2 || ft[0] != 0x7b {
+							e.Probe("block.foreignTokenDiffersOnlyInLength")
+						}
+						send(block(ob, fn, ft), fmt.Sprintf("block %d of body %d under a foreign token %x", fn, ob, ft))
+					}
 				}
 			case 5: // the transfer timeout passes
 				e.Fault("time.transferTimeout")
